@@ -595,3 +595,48 @@ func REscLetters(c *core.Ctx) {
 		c.Anchor("escape sequences written by escape()")
 	}
 }
+
+// ---------------------------------------------------------------------------
+// R-KEYINJ: the set-table key is an injective encoding of the class.
+// writer.setCode de-duplicates character classes through the byte string
+// mapHashFill produces, so two different classes must never serialise alike.
+// (*bytes.Buffer).WriteRune is not injective on the values a range bound can
+// take: every surrogate half and every value above MaxRune is written as
+// U+FFFD, so [\uD800a] and [�a] share one table entry.  Rune-typed
+// values have to be written with a fixed-width integer encoding, and the
+// reader (NewCharSetRuntime) has to use the matching read.
+// ---------------------------------------------------------------------------
+
+func RKeyInj(c *core.Ctx) {
+	c.Rule("R-KEYINJ", "CharSet.mapHashFill (the key under which writer.setCode de-duplicates classes) writes no rune-typed value with WriteRune (which maps every invalid code point to U+FFFD) and NewCharSetRuntime reads none with ReadRune: range bounds are encoded with a fixed-width integer write / read pair", 2)
+	p := c.P
+	for _, fname := range []string{"CharSet.mapHashFill", "NewCharSetRuntime"} {
+		fn := p.SSAFunc(p.LookupFunc("syntax", fname))
+		if fn == nil {
+			c.Anchor("syntax." + fname)
+			continue
+		}
+		name := core.SSAName(fn)
+		c.Visit(name)
+		lossy := token.NoPos
+		what := ""
+		n := 0
+		for _, b := range fn.Blocks {
+			for _, ins := range b.Instrs {
+				call, ok := ins.(*ssa.Call)
+				if !ok {
+					continue
+				}
+				cal := call.Call.StaticCallee()
+				if cal == nil || cal.Pkg == nil {
+					continue
+				}
+				n++
+				if cal.Pkg.Pkg.Path() == "bytes" && (cal.Name() == "WriteRune" || cal.Name() == "ReadRune") {
+					lossy, what = call.Pos(), cal.Name()
+				}
+			}
+		}
+		c.Check(lossy == token.NoPos, name+" / rune values are encoded injectively", fn.Pos(), "%s at %s: surrogate halves and out-of-range values all become U+FFFD, so distinct classes get the same key (%d calls inspected)", what, p.Pos(lossy), n)
+	}
+}
